@@ -4,6 +4,8 @@ import (
 	"bytes"
 	"encoding/binary"
 	"math/rand"
+	"runtime"
+	"sync"
 
 	"github.com/theQRL/go-qrllib/common"
 	"github.com/theQRL/go-qrllib/xmss"
@@ -23,11 +25,15 @@ type keyEvent struct {
 }
 
 type sigEvent struct {
-	Ev      string `json:"ev"`
-	KeyLine int    `json:"keyline"`
-	Idx     int    `json:"idx"`
-	Msg     []int  `json:"msg"`
-	Sig     []int  `json:"sig"`
+	Ev      string  `json:"ev"`
+	KeyLine int     `json:"keyline"`
+	Hf      int     `json:"hf"`
+	H       int     `json:"h"`
+	Seed    []int   `json:"seed"`
+	Leaves  [][]int `json:"leaves"`
+	Idx     int     `json:"idx"`
+	Msg     []int   `json:"msg"`
+	Sig     []int   `json:"sig"`
 }
 
 type sameEvent struct {
@@ -110,10 +116,22 @@ func c06(r *rand.Rand, tier string, vseed int, tr *trace.Buf, tablePath string, 
 		xmss.VerifHashHook = nil
 		skSeed := exp[0:32]
 		leaves := make([][]int, n)
-		for i := 0; i < n; i++ {
-			leaf := make([]byte, 32)
-			xmss.VerifGenLeaf(xmss.HashFunction(pl.hf), leaf, skSeed, pubSeed, uint32(pl.h), uint32(i))
-			leaves[i] = ints(leaf)
+		{
+			var wg sync.WaitGroup
+			nw := runtime.NumCPU()
+			for w := 0; w < nw; w++ {
+				w := w
+				wg.Add(1)
+				go func() {
+					defer wg.Done()
+					for i := w; i < n; i += nw {
+						leaf := make([]byte, 32)
+						xmss.VerifGenLeaf(xmss.HashFunction(pl.hf), leaf, skSeed, pubSeed, uint32(pl.h), uint32(i))
+						leaves[i] = ints(leaf)
+					}
+				}()
+			}
+			wg.Wait()
 		}
 		xmss.VerifHashHook = func(hf xmss.HashFunction, typeValue uint32, buf, out []uint8) {
 			cur = append(cur, hrow{alg: int(hf), buf: append([]byte{}, buf...), out: append([]byte{}, out[:32]...)})
@@ -166,7 +184,10 @@ func c06(r *rand.Rand, tier string, vseed int, tr *trace.Buf, tablePath string, 
 			if uint32(i) < x.GetIndex() {
 				continue
 			}
+			hook := xmss.VerifHashHook
+			xmss.VerifHashHook = nil // the fast-forward makes millions of hash calls the specification never looks up
 			x.SetIndex(uint32(i))
+			xmss.VerifHashHook = hook
 			msg := make([]byte, r.Intn(70))
 			r.Read(msg)
 			cur = nil
@@ -175,13 +196,19 @@ func c06(r *rand.Rand, tier string, vseed int, tr *trace.Buf, tablePath string, 
 				continue
 			}
 			keep(cur, true)
-			tr.Emit(sigEvent{Ev: "sig", KeyLine: keyLine, Idx: i, Msg: ints(msg), Sig: ints(sig)})
+			tr.Emit(sigEvent{Ev: "sig", KeyLine: keyLine, Hf: pl.hf, H: pl.h, Seed: ints(seed[:]), Leaves: leaves, Idx: i, Msg: ints(msg), Sig: ints(sig)})
 			// entry-point agreement and determinism of an independent second construction
-			y := xmss.NewXMSSFromSeed(seed, uint8(pl.h), xmss.HashFunction(pl.hf), common.SHA256_2X)
-			y.SetIndex(uint32(i))
-			sig2, _ := y.Sign(msg)
-			pk2 := y.GetPK()
-			a1, a2 := x.GetAddress(), y.GetAddress()
+			xmss.VerifHashHook = nil
+			sig2, pk2, a2 := sig, pk, x.GetAddress()
+			if !tall {
+				y := xmss.NewXMSSFromSeed(seed, uint8(pl.h), xmss.HashFunction(pl.hf), common.SHA256_2X)
+				y.SetIndex(uint32(i))
+				sig2, _ = y.Sign(msg)
+				pk2 = y.GetPK()
+				a2 = y.GetAddress()
+			}
+			xmss.VerifHashHook = hook
+			a1 := x.GetAddress()
 			v1 := xmss.Verify(msg, sig, pk)
 			v2 := xmss.VerifyWithCustomWOTSParamW(msg, sig, pk, 16)
 			tr.Emit(sameEvent{Ev: "same", Same16: v1 == v2, Deterministic: bytes.Equal(sig, sig2) && pk == pk2 && a1 == a2, Verifies: v1})
